@@ -151,6 +151,9 @@ type Frame struct {
 	SkipProb          int
 	MBs               []MB
 	Version           int
+	// HScale, VScale: the two up-scaling hint bits stored above the 14-bit width and height
+	// (decoders ignore them; every reader of the header must mask them off)
+	HScale, VScale int
 	// ZeroSpelling: 0 = blocks end with EOB after their last non-zero level; 1 = every block
 	// spells its trailing zeros as DCT_0 tokens to position 15; 2 = every other block does
 	ZeroSpelling int
@@ -483,7 +486,7 @@ func (f *Frame) Encode() []byte {
 	// assemble
 	tag := uint32(0) | uint32(f.Version&7)<<1 | 1<<4 | uint32(len(part0))<<5
 	out := []byte{byte(tag), byte(tag >> 8), byte(tag >> 16), 0x9d, 0x01, 0x2a,
-		byte(f.W), byte(f.W >> 8 & 0x3f), byte(f.H), byte(f.H >> 8 & 0x3f)}
+		byte(f.W), byte(f.W>>8&0x3f) | byte(f.HScale&3)<<6, byte(f.H), byte(f.H>>8&0x3f) | byte(f.VScale&3)<<6}
 	out = append(out, part0...)
 	for i := 0; i < nParts-1; i++ {
 		n := len(tokenParts[i])
@@ -655,6 +658,8 @@ func Generate(pk Picker, seed int64) (*Frame, string) {
 	}
 	// coefficients
 	f.ZeroSpelling = pk.Pick(3, "zero-spelling")
+	f.HScale = pk.Pick(4, "hscale")
+	f.VScale = pk.Pick(4, "vscale")
 	cp := pk.Pick(11, "coeffs")
 	mag := []int{1, 2, 3, 4, 5, 7, 11, 19, 35, 67, 2114}[pk.Pick(11, "magnitude")]
 	// keep |level * quantiser| inside 16 bits (coefficients are stored as int16)
